@@ -1,8 +1,13 @@
 import Cfdm.Driver.Parse
 import Cfdm.Model.Equality
+import Cfdm.Model.EqualityLeaf
 /-
 Driver for C05: `C05.eq o=<opts> x=<obj> y=<obj> same=<0|1>` → `True` / `False` /
-`raised:<Exception>` / `unmodelled`.
+`raised:<Exception>` / `unmodelled`;
+an optional `iq=(interval?,(names…))` gives `ignore_qualifiers` of `CellMethod.equals`;
+`C05.leaf o=(an,ad,rn,rd,k,idt,ifv) route=<data|value> x=<larr|ldata> y=<…>` → `True` / `False`
+(the leaf array comparison as coded, reached through `Data.equals` or through a property /
+parameter value).
 
 Values are nested tuples `(a,b,(c,d))`; `_` is Python `None`, `--` a masked element.
 -/
@@ -204,14 +209,14 @@ def showR : Except Exn Bool → String
 conversion that the model does not cover. -/
 def otherKind (o : Opts) : Except Exn Bool := if o.ignoreType then .error .unmodelled else .ok false
 
-def equalsTop (o : Opts) (same : Bool) (x y : Obj) : Except Exn Bool :=
+def equalsTop (o : Opts) (iq : Bool × List Nat) (same : Bool) (x y : Obj) : Except Exn Bool :=
   -- `if self is other: return True`
   if same then .ok true else
   match x, y with
   | .field a, .field b => fieldEquals o a b
   | .construct a, .construct b => constructEquals o a b
   | .data a, .data b => dataObjEquals o a b
-  | .cellMethod a, .cellMethod b => cellMethodEquals o a b
+  | .cellMethod a, .cellMethod b => .ok (cellMethodCoreIQ o.close iq.2 iq.1 a b)
   | .coordRef a, .coordRef b => coordRefEquals o a b
   | .domainAxis a, .domainAxis b => domainAxisEquals a b
   | .sub c a, .sub d b => if c == d then subObjEquals o a b else otherKind o
@@ -224,13 +229,83 @@ def runEq (kv : KV) : String :=
     let x ← obj? (← parseTree (← kv.get? "x"))
     let y ← obj? (← parseTree (← kv.get? "y"))
     let same ← (match kv.get? "same" with | some "1" => some true | some "0" => some false | _ => none)
-    some (o, x, y, same)) with
+    let iq ← (match kv.get? "iq" with
+      | none => some (false, [])
+      | some t => match parseTree t with
+        | some (.node [ii, l]) => do some (← ii.bool?, ← l.listOf? Tree.nat?)
+        | _ => none)
+    some (o, x, y, same, iq)) with
   | none => "bad-op"
-  | some (o, x, y, same) => showR (equalsTop o same x y)
+  | some (o, x, y, same, iq) => showR (equalsTop o iq same x y)
+
+/-! ### the leaf stream -/
+open Cfdm.Equality.Leaf in
+def val? : Tree → Option Val
+  | .atom "nan" => some .nan
+  | .atom "inf" => some .pinf
+  | .atom "-inf" => some .ninf
+  | .atom s =>
+    if s.startsWith "s" then (parseInt? (s.drop 1).toString).map Val.tok
+    else (parseInt? s).map Val.num
+  | _ => none
+
+open Cfdm.Equality.Leaf in
+def kind? : Tree → Option Kind
+  | .atom "0" => some .numeric
+  | .atom "1" => some .str
+  | .atom "2" => some .other
+  | _ => none
+
+open Cfdm.Equality.Leaf in
+def larr? (t : Tree) : Option LArr :=
+  match t with
+  | .node [.atom "A", sh, dt, kd, ma, mk, vs] => do
+    some { shape := ← sh.listOf? Tree.nat?, dtype := ← dt.nat?, kind := ← kind? kd, isMA := ← ma.bool?,
+           mask := ← mk.opt? (fun m => m.listOf? Tree.bool?), vals := ← vs.listOf? val? }
+  | _ => none
+
+open Cfdm.Equality.Leaf in
+def ldata? (t : Tree) : Option LData :=
+  match t with
+  | .node [.atom "D", a, fill, units, cal] => do
+    some { arr := ← larr? a, fill := ← fill.opt? val?, units := ← units.opt? Tree.nat?, calendar := ← cal.opt? Tree.nat? }
+  | _ => none
+
+open Cfdm.Equality.Leaf in
+/-- The records must be well-formed numpy arrays (sizes; no mask on a plain `ndarray`). -/
+def larrOK (x : LArr) : Bool :=
+  x.vals.length == x.shape.foldl (· * ·) 1
+  && (match x.mask with | some m => m.length == x.vals.length && x.isMA | none => true)
+
+open Cfdm.Equality.Leaf in
+def runLeaf (kv : KV) : String :=
+  match (do
+    let ot ← parseTree (← kv.get? "o")
+    let (an, ad, rn, rd, k, idt, ifv) ← (match ot with
+      | .node [an, ad, rn, rd, k, idt, ifv] => do
+        some (← an.nat?, ← ad.nat?, ← rn.nat?, ← rd.nat?, ← k.nat?, ← idt.bool?, ← ifv.bool?)
+      | _ => none)
+    let route ← kv.get? "route"
+    let close := tolClose an ad rn rd k
+    let rp := decide (0 < rn)
+    if route == "data" then
+      let x ← ldata? (← parseTree (← kv.get? "x"))
+      let y ← ldata? (← parseTree (← kv.get? "y"))
+      if larrOK x.arr && larrOK y.arr then some (dataLeafEquals close rp idt ifv x y) else none
+    else if route == "value" then
+      let x ← larr? (← parseTree (← kv.get? "x"))
+      let y ← larr? (← parseTree (← kv.get? "y"))
+      -- property and parameter values are compared with ignore_data_type=True
+      if larrOK x && larrOK y then some (leafEquals close rp true x y) else none
+    else none) with
+  | none => "bad-op"
+  | some true => "True"
+  | some false => "False"
 
 def run (sub : String) (kv : KV) : String :=
   match sub with
   | "eq" => runEq kv
+  | "leaf" => runLeaf kv
   | _ => "bad-op"
 
 end Cfdm.Driver.C05
